@@ -117,6 +117,28 @@ class Program:
         sarg = extra if extra else {}
         return "from_dense", lambda: cls.from_dense(D, maps, duals, charge=charge, invalid_sectors="ignore", **sarg, **okw)
 
+    def failed(self, operands, info):
+        """A step raised. The state of an operand after a FAILED in-place call is not specified
+        by any property (nothing was returned, nothing promised): such operands leave the pool."""
+        if info.get("inplace"):
+            self.pool = [v for v in self.pool if not any(v is o_ for o_ in operands)]
+
+    def axform(self, seq, nd=None):
+        """The same axis sequence in one of the forms numpy users pass: tuple (most often),
+        list, numpy array, tuple of numpy integers, negative positions."""
+        rng = self.rng
+        seq = tuple(int(v) for v in seq)
+        r = rng.random()
+        if r < 0.6:
+            return seq
+        if r < 0.7:
+            return list(seq)
+        if r < 0.8:
+            return tuple(np.int64(v) for v in seq)
+        if r < 0.9 and nd:
+            return tuple(v - nd if rng.random() < 0.5 else v for v in seq)
+        return np.array(seq, dtype=np.int64) if seq else seq
+
     # ---- step selection -----------------------------------------------------------------
     def pick(self):
         """-> (name, [operands], f, info) or None. Operands are VALUES (from the pool or fresh)."""
@@ -213,7 +235,7 @@ class Program:
         if name == "item_bool":
             return name, [x], (lambda a: bool(a)), I(dtype=None)
         if name in ("transpose", "transpose_inplace"):
-            perm = tuple(rng.sample(range(nd), nd))
+            perm = self.axform(rng.sample(range(nd), nd), nd)
             if name == "transpose":
                 return name, [x], (lambda a: a.transpose(perm)), I()
             return name, [x], (lambda a: a.transpose(perm, inplace=True)), I(inplace=True)
@@ -326,6 +348,8 @@ class Program:
             from checks.c05 import groupings
 
             gs = rng.choice(groupings(rng, nd, 4))
+            if rng.random() < 0.3:
+                gs = tuple(self.axform(g, nd) for g in gs)
             if name == "fuse":
                 return name, [x], (lambda a: a.fuse(*gs)), I()
             if name == "fuse_concat":
@@ -412,7 +436,7 @@ class Program:
                 return name, [x], (lambda a: a.phase_flip(*axs)), I()
             return name, [x], (lambda a: a.phase_flip(*axs, inplace=True)), I(inplace=True)
         if name == "phase_transpose":
-            perm = tuple(rng.sample(range(nd), nd)) if nd else ()
+            perm = self.axform(rng.sample(range(nd), nd), nd) if nd else ()
             return name, [x], (lambda a: a.phase_transpose(perm)), I()
         if name == "phase_global":
             return name, [x], (lambda a: a.phase_global()), I()
